@@ -485,8 +485,8 @@ func (g *Gen) vBgSize() string {
 // vBgSizeShorthand: N14 - inside the background shorthand a two-value size is minified as if it
 // were a position (second 50% dropped, 0 0 removed); by default only sizes that survive that.
 func (g *Gen) vBgSizeShorthand() string {
-	if g.known {
-		if g.chance(1, 3) {
+	if g.chance(1, 3) { // (N14 = K93 repaired: every two-value size)
+		if g.chance(1, 2) {
 			return g.pick("50% 50%", "100% 50%", "0 0", "10px 50%", "0px 0%")
 		}
 		return g.vBgSize()
